@@ -682,6 +682,20 @@ MonC20(S) ==
        : k \in 1..Min2(Len(ds), Len(xs))}
 
 (***************************************************************************)
+(* C16 (stream half): two streams on one Streamer whose masters announce   *)
+(* different formats (checksum on / off, other wire options).  The second  *)
+(* call is served from a second history (files2, from start2): each call   *)
+(* decodes with the format ITS stream announces.                           *)
+(***************************************************************************)
+MonC16(S) ==
+  SeqFails("C16.first-stream", S, Delivered(S, 0),
+           LET xs == ExpectedFrom(S, StartPos(S)) IN
+           IF Scen(S).attempts[1].end = "cancel" /\ Len(Delivered(S, 0)) <= Len(xs) THEN Sub(xs, 1, Len(Delivered(S, 0))) ELSE xs, TRUE) \cup
+  SeqFails("C16.second-stream", S, Delivered(S, 1), Committed(UnitsFrom(Scen(S).files2, Scen(S).start2), Scen(S).start2), TRUE) \cup
+  {F("C16.second-stream", S, [what |-> "the second stream did not end cleanly", got |-> 0, want |-> 0, k |-> 0, c |-> 0, typ |-> 0]) :
+     x \in {y \in {Lines(S, "streamReturn")[i] : i \in 1..Len(Lines(S, "streamReturn"))} : y.att = 1 /\ (~y.returned \/ ~y.res.nil)}}
+
+(***************************************************************************)
 (* Dispatch and the replay state machine.                                  *)
 (***************************************************************************)
 \* end-to-end halves of the value properties: the delivered cells of the property's column kinds match the oracle
@@ -705,6 +719,7 @@ Mon(p, S) ==
     [] p = "C06" -> MonC06(S)
     [] p = "C08" -> MonC08(S)
     [] p = "C20" -> MonC20(S)
+    [] p = "C16" -> MonC16(S)
 
 Failures(S) == UNION {Mon(p, S) : p \in Props}
 
